@@ -1,6 +1,7 @@
 (* Properties/C18.v — "ByteEq / ByteHash give a lawful, purely byte-wise Eq and Hash" (thin). *)
 From Coq Require Import NArith List Bool.
 From BM Require Import Model.ByteEq.
+Import ListNotations.
 
 Theorem C18_eq_iff_bytes : forall a b, byte_eq a b = true <-> a = b.
 Proof. exact byte_eq_spec. Qed.
@@ -17,9 +18,48 @@ Theorem C18_hash_slice_bytes_only : forall state (write : state -> bytes -> stat
   concat vs = concat ws -> hash_slice state write st vs = hash_slice state write st ws.
 Proof. exact hash_slice_bytes_only. Qed.
 
+Theorem C18_slice_compare_is_byte_equality : forall a b, slice_eq a b = true <-> a = b.
+Proof. exact slice_eq_spec. Qed.
+Theorem C18_derived_eq_iff_bytes : forall v w, derived_eq v w = true <-> bytes_of v = bytes_of w.
+Proof. exact derived_eq_iff. Qed.
+Theorem C18_derived_eq_reflexive : forall v, derived_eq v v = true.
+Proof. exact derived_eq_refl. Qed.
+Theorem C18_derived_eq_symmetric : forall v w, derived_eq v w = derived_eq w v.
+Proof. exact derived_eq_sym. Qed.
+Theorem C18_derived_eq_transitive : forall u v w, derived_eq u v = true -> derived_eq v w = true -> derived_eq u w = true.
+Proof. exact derived_eq_trans. Qed.
+Theorem C18_nan_reflexive_where_ieee_is_not :
+  fieldwise_f32_eq nan_payload1 nan_payload1 = false /\ derived_eq nan_payload1 nan_payload1 = true.
+Proof. exact nan_contrast. Qed.
+Theorem C18_signed_zeros_differ_bytewise :
+  fieldwise_f32_eq pos_zero neg_zero = true /\ derived_eq pos_zero neg_zero = false.
+Proof. exact zero_contrast. Qed.
+Theorem C18_hash_value_is_singleton_slice : forall state (write : state -> bytes -> state) st a,
+  hash state write st a = hash_slice state write st [a].
+Proof. exact hash_singleton. Qed.
+Theorem C18_hash_sees_all_bytes : forall state (write : state -> bytes -> state) st a b,
+  (forall s x y, write s x = write s y -> x = y) ->
+  hash state write st a = hash state write st b -> byte_eq a b = true.
+Proof. exact hash_injective_hasher. Qed.
+Theorem C18_one_write_of_the_bytes : forall v, hash (list bytes) rec_write [] v = [v].
+Proof. exact recording_one_write. Qed.
+Theorem C18_one_write_of_the_concatenation : forall vs, hash_slice (list bytes) rec_write [] vs = [concat vs].
+Proof. exact recording_one_write_slice. Qed.
+
 Print Assumptions C18_eq_iff_bytes.
 Print Assumptions C18_reflexive.
 Print Assumptions C18_symmetric.
 Print Assumptions C18_transitive.
 Print Assumptions C18_equal_values_hash_equally.
 Print Assumptions C18_hash_slice_bytes_only.
+Print Assumptions C18_slice_compare_is_byte_equality.
+Print Assumptions C18_derived_eq_iff_bytes.
+Print Assumptions C18_derived_eq_reflexive.
+Print Assumptions C18_derived_eq_symmetric.
+Print Assumptions C18_derived_eq_transitive.
+Print Assumptions C18_nan_reflexive_where_ieee_is_not.
+Print Assumptions C18_signed_zeros_differ_bytewise.
+Print Assumptions C18_hash_value_is_singleton_slice.
+Print Assumptions C18_hash_sees_all_bytes.
+Print Assumptions C18_one_write_of_the_bytes.
+Print Assumptions C18_one_write_of_the_concatenation.
